@@ -15,12 +15,12 @@ Long_SrvCids == {A(11), A(90)}
 Long_RegIdus == One
 Long_RegIdss == One
 Long_RegKsfs == {0}
-Long_SrvCtxs == {NoneV, A(21), A(91)}
+Long_SrvCtxs == {NoneV, A(91)}
 Long_SrvIdus == {NoneV, A(31), A(92)}
-Long_SrvIdss == {NoneV, A(32), A(92)}
-Long_CliCtxs == {NoneV, A(21), A(91)}
+Long_SrvIdss == {NoneV, A(92)}
+Long_CliCtxs == {NoneV, A(91)}
 Long_CliIdus == {NoneV, A(31), A(92)}
-Long_CliIdss == {NoneV, A(32), A(92)}
+Long_CliIdss == {NoneV, A(92)}
 Long_CliKsfs == {0}
 Long_MutPlan == << >>
 
